@@ -324,11 +324,11 @@ def specs_for_shard(ctx):
     times = gen.TIMES
     i = 0
     for t in midi1.TYPES:
-        for a in list(gen.boundary_attr_sets(t, rng, extra_random=3 if ctx.tier == 'quick' else 40)):
+        for a in list(gen.boundary_attr_sets(t, rng, extra_random=3 if ctx.tier == 'quick' else 3000)):
             if i % ctx.nshards == ctx.shard:
                 out.append(('msg', t, a, times[i % len(times)]))
             i += 1
-    reps = 10 if ctx.tier == 'quick' else 150
+    reps = 10 if ctx.tier == 'quick' else 12000
     for t in rmeta.SPECS:
         for r in range(reps):
             if i % ctx.nshards == ctx.shard:
